@@ -2146,6 +2146,18 @@ class FieldDomain:
         False
 
         """
+        # With ignore_type=True, an object of another class is
+        # replaced by an instance of this class that is initialised
+        # from it, so that the metadata constructs tested below are
+        # defined for both operands
+        pp = super()._equals_preprocess(
+            other, verbose=verbose, ignore_type=ignore_type
+        )
+        if pp is True or pp is False:
+            return pp
+
+        other = pp
+
         # Check the properties and data
         if not ignore_properties:
             ignore_properties = ("Conventions",)
